@@ -18,7 +18,8 @@ import (
 	"verif/harness/stats"
 )
 
-var c14Sources = []string{"h:637", "h:6379", "h:63790", "10.0.0.1:6379", "10.0.0.1:63791", "10.0.0.11:6379", "other:1"}
+// the first six can be "own"; the others only ever appear as foreign sources (addresses that END with an own address included)
+var c14Sources = []string{"h:637", "h:6379", "h:63790", "10.0.0.1:6379", "10.0.0.1:63791", "10.0.0.11:6379", "other:1", "xh:637", "110.0.0.1:6379", "my-h:6379"}
 
 type ckWrite struct {
 	src      string
